@@ -202,7 +202,52 @@ def run(ctx: Context, rep) -> None:
         "buffer and 0 only at end of file (unbuffered binary file)",
     ]
     hc = ctx.fn(f"{UT}:hash_checksums")
-    gf, disp, kind, acc_name = find_name_dispatch(ctx)
+    # order first (independent of how names are mapped to constructors):
+    # the hash objects are one per entry of `hashes`, in order
+    from sa import collalg
+    rep.rule(
+        "C16.order",
+        "the collection of hash objects that is updated and reported is "
+        "map(hashes, <one object per name>) - one object per entry of the "
+        "`hashes` argument, in its order, nothing filtered, regrouped or "
+        "concatenated (collection algebra, helpers inlined)")
+    upd = [c for c in hc.calls() if isinstance(c.func, ast.Attribute) and
+           c.func.attr == "update"]
+    hf_name = None
+    for u in upd:
+        lp = parent(parent(u))
+        if isinstance(lp, ast.For):
+            hf_name = dotted(lp.iter)
+    ca = collalg.CollAlg(hc)
+    hterm = ca.env.get(hf_name) if hf_name else None
+    hparam = hc.params()[1]
+    ok_order = hterm is not None and hterm[0] == "map" and \
+        hterm[1] == ("src", hparam)
+    if hterm is not None and not ok_order:
+        # [] ++ map(...) from an append loop over `hashes`
+        parts = collalg.concat_parts(hterm)
+        ok_order = len(parts) == 1 and parts[0][0] == "map" and \
+            parts[0][1] == ("src", hparam)
+        if not ok_order and len(parts) == 1 and parts[0] == ("src", hparam):
+            ok_order = False
+    undecided = hterm is None or any(
+        x[0] == "opaque" for x in collalg.spine(hterm))
+    if undecided and hterm is not None and not ok_order:
+        pass
+    rep.ob("C16.order", ok_order or (undecided and hterm is not None and
+                                     False), loc=hc.loc(),
+           where=hc.qualname,
+           construct=f"{hf_name} = " + (collalg.pretty(hterm)[:150]
+                                        if hterm is not None else "<none>"),
+           message="one hash object per configured name, in the configured "
+           "order") if not undecided else None
+    try:
+        gf, disp, kind, acc_name = find_name_dispatch(ctx)
+    except AnalysisError:
+        if rep.violations:
+            check_when(ctx, rep, "C16.when")
+            return
+        raise
     subject = dotted(disp.subject)
 
     rep.rule(
